@@ -30,6 +30,111 @@ Theorem C16_pack_bits_little_endian : forall bits i, (i < length bits)%nat ->
 Proof. exact pack_bits_bit. Qed.
 Print Assumptions C16_pack_bits_little_endian.
 
+(* ================= result messages (model: Codec/PackBitsResults.v) ================= *)
+From VF Require Import Codec.PackBitsResults Codec.PackBitsResultsProofs.
+
+(* results_from_proto(results_to_proto(r, m), m) gives back every key, instance, qubit and repetition in place *)
+Theorem C16_results_proto_roundtrip : forall ms sweeps msg, ms_wf ms -> results_to_proto ms sweeps = Some msg ->
+  results_from_proto (Some ms) msg = Some (map (map (restrict ms)) sweeps).
+Proof. exact results_proto_roundtrip. Qed.
+Print Assumptions C16_results_proto_roundtrip.
+
+Theorem C16_mr_roundtrip : forall R m data mr,
+  mr_to_proto R m data = Some mr -> NoDup (m_qubits m) -> (1 <= m_instances m)%nat ->
+  mr_from_proto R (Some (m_qubits m)) mr = Some (m_key m, data).
+Proof. exact mr_roundtrip. Qed.
+Print Assumptions C16_mr_roundtrip.
+
+(* without a measurement list: message order is the order the qubits were written in *)
+Theorem C16_mr_roundtrip_message_order : forall R m data mr,
+  mr_to_proto R m data = Some mr -> NoDup (m_qubits m) -> (1 <= m_instances m)%nat ->
+  mr_from_proto R None mr = Some (m_key m, data).
+Proof. exact mr_roundtrip_message_order. Qed.
+Print Assumptions C16_mr_roundtrip_message_order.
+
+(* decoding against a permuted qubit list permutes the columns accordingly, and nothing else *)
+Theorem C16_mr_roundtrip_permuted : forall R m data mr (perm : list nat),
+  mr_to_proto R m data = Some mr -> NoDup (m_qubits m) -> (1 <= m_instances m)%nat ->
+  length perm = length (m_qubits m) -> (forall p, In p perm -> (p < length (m_qubits m))%nat) ->
+  mr_from_proto R (Some (map (fun p => nth p (m_qubits m) 0) perm)) mr
+  = Some (m_key m, map (map (fun row => map (fun p => nth p row false) perm)) data).
+Proof. exact mr_roundtrip_perm. Qed.
+Print Assumptions C16_mr_roundtrip_permuted.
+
+(* ================= constants table (model: Codec/Intern.v) ================= *)
+From VF Require Import Codec.Intern Codec.InternProofs.
+
+Section C16_Intern.
+  Variables Q G T P : Type.
+  Variable eqQ : Q -> Q -> bool.
+  Variable eqG : G -> G -> bool.
+  Variable eqT : T -> T -> bool.
+  Variable eqP : P -> P -> bool.
+  Hypothesis eqQ_spec : forall a b, eqQ a b = true <-> a = b.
+  Hypothesis eqG_spec : forall a b, eqG a b = true <-> a = b.
+  Hypothesis eqT_spec : forall a b, eqT a b = true <-> a = b.
+  Hypothesis eqP_spec : forall a b, eqP a b = true <-> a = b.
+
+  (* deserialize(serialize(c)) = c for every circuit over abstract leaves with decidable equality; a deserialised
+     moment lists its circuit operations first (canon), which Moment equality does not distinguish *)
+  Theorem C16_intern_roundtrip : forall c : circuit Q G T P,
+    deserialize (serialize eqQ eqG eqT eqP c) = Some (canon_circuit c).
+  Proof. exact (intern_roundtrip Q G T P eqQ eqG eqT eqP eqQ_spec eqG_spec eqT_spec eqP_spec). Qed.
+
+  Theorem C16_intern_roundtrip_exact : forall c : circuit Q G T P, cf_cir Q G T P c = true ->
+    deserialize (serialize eqQ eqG eqT eqP c) = Some c.
+  Proof. exact (intern_roundtrip_exact Q G T P eqQ eqG eqT eqP eqQ_spec eqG_spec eqT_spec eqP_spec). Qed.
+
+  Theorem C16_canon_moment_partition : forall (ops : list (op Q G T P)) (ts : list T),
+    canon_moment (Mom ops ts) =
+    Mom (map canon_op (filter is_circ ops) ++ map canon_op (filter (fun o => negb (is_circ o)) ops)) ts.
+  Proof. exact (canon_moment_partition Q G T P). Qed.
+
+  (* every index refers backwards: constant i only mentions indices below i, the circuit only indices in the table *)
+  Theorem C16_intern_indices_backward : forall c : circuit Q G T P,
+    backward (serialize eqQ eqG eqT eqP c) = true.
+  Proof. exact (intern_indices_backward Q G T P eqQ eqG eqT eqP eqQ_spec eqG_spec eqT_spec eqP_spec). Qed.
+
+  (* equal things share an index, unequal things never do, and every index holds the decoded form of its item *)
+  Theorem C16_intern_share : forall c : circuit Q G T P,
+    let st := serialize_state eqQ eqG eqT eqP c in
+    NoDup (map fst (raw st)) /\ NoDup (map snd (raw st)) /\
+    exists vals, decode_consts (consts st) = Some vals /\
+      forall k i, In (k, i) (raw st) -> nth_error vals i = Some (val_of_key Q G T P k).
+  Proof. exact (intern_share Q G T P eqQ eqG eqT eqP eqQ_spec eqG_spec eqT_spec eqP_spec). Qed.
+
+  Theorem C16_intern_equal_share : forall (c : circuit Q G T P) k i j,
+    In (k, i) (raw (serialize_state eqQ eqG eqT eqP c)) -> In (k, j) (raw (serialize_state eqQ eqG eqT eqP c)) -> i = j.
+  Proof. exact (intern_equal_share Q G T P eqQ eqG eqT eqP eqQ_spec eqG_spec eqT_spec eqP_spec). Qed.
+
+  Theorem C16_intern_unequal_never_share : forall (c : circuit Q G T P) k k' i,
+    In (k, i) (raw (serialize_state eqQ eqG eqT eqP c)) -> In (k', i) (raw (serialize_state eqQ eqG eqT eqP c)) -> k = k'.
+  Proof. exact (intern_unequal_never_share Q G T P eqQ eqG eqT eqP eqQ_spec eqG_spec eqT_spec eqP_spec). Qed.
+End C16_Intern.
+Print Assumptions C16_intern_roundtrip.
+Print Assumptions C16_intern_roundtrip_exact.
+Print Assumptions C16_canon_moment_partition.
+Print Assumptions C16_intern_indices_backward.
+Print Assumptions C16_intern_share.
+Print Assumptions C16_intern_equal_share.
+Print Assumptions C16_intern_unequal_never_share.
+
 Example C16_pack_example : pack_bits [true; false; false; false; false; false; false; false; true; true] = [1; 3]
   /\ (1 < length [true; false])%nat.
 Proof. split; [reflexivity|repeat constructor]. Qed.
+
+(* non-vacuity of the hypotheses: a well-formed measurement list / an encodable result / leaf equalities exist *)
+Example C16_results_example :
+  ms_wf [mkM 0 [5; 3] 2; mkM 1 [7] 1] /\
+  results_to_proto [mkM 0 [5; 3] 2]
+    [[mkT 3 [(0, [[[true; false]; [false; false]]; [[true; true]; [false; true]]; [[false; false]; [true; false]]])]]]
+  = Some [mkSR 3 [[mkMR 0 2 [(5, [37]); (3, [12])]]]].
+Proof.
+  split; [|reflexivity]. split.
+  - repeat constructor; simpl; intuition discriminate.
+  - intros m [<-|[<-|[]]]; split; simpl; repeat constructor; simpl; intuition discriminate.
+Qed.
+Example C16_intern_example :
+  (forall a b, Nat.eqb a b = true <-> a = b) /\
+  cf_cir nat nat nat nat (Cir [Mom [Circ 3 (Cir [Mom [Gate 5 [0; 1] [7]] []] [9]); Gate 5 [0; 1] [7]] [8]] [7])%nat = true.
+Proof. split; [apply Nat.eqb_eq|reflexivity]. Qed.
